@@ -122,8 +122,25 @@ def run(F, rep):
     if len(sc) != 1:
         raise AnalysisBroken('scaleEquationAst: scaleAst(ast, ...) call not found')
     guard = None
+
+    def local_init(e):
+        """initialiser of a bool local that is assigned once (a named sub-condition)"""
+        if e.get('k') == 'Ref' and e.get('dk') == 'local':
+            inits = [v['c'][0] for v in se.walk() if v.get('k') == 'Var' and v.get('d') == e['d'] and v.get('c')]
+            writes = [x for x in se.walk() if x.get('k') in ('Bin', 'CAssign') and x.get('c') and x['c'][0].get('k') == 'Ref' and x['c'][0].get('d') == e['d'] and (x.get('k') == 'CAssign' or x.get('op') == '=')]
+            if len(inits) == 1 and not writes:
+                return inits[0]
+        return None
+
+    def full_text(cnd):
+        t = render(cnd)
+        for x in walk(cnd):
+            i_ = local_init(x)
+            if i_ is not None:
+                t += ' ' + full_text(i_)
+        return t
     for cnd, br, st in enclosing_conditions(se, sc[0]):
-        if 'EQUALITY' in render(cnd) or 'BVAR' in render(cnd):
+        if 'EQUALITY' in full_text(cnd) or 'BVAR' in full_text(cnd):
             guard = (cnd, br)
     if guard is None:
         raise AnalysisBroken('scaleEquationAst: guard on the parent type vanished')
@@ -136,6 +153,10 @@ def run(F, rep):
             return (a and b) if e['op'] == '&&' else (a or b)
         if k == 'Un' and e.get('op') == '!':
             return not val(c[0], ptype, is_left)
+        if k in ('Paren', 'Cast', 'Construct') and len(c) == 1:
+            return val(c[0], ptype, is_left)
+        if local_init(e) is not None:
+            return val(local_init(e), ptype, is_left)
         t = render(e)
         m = re.match(r'astParent->mPimpl->mType (==|!=) libcellml::AnalyserEquationAst::Type::(\w+)$', t)
         if m:
@@ -357,8 +378,10 @@ def run(F, rep):
     # ------------------------------------------------------------------ clauses shared with C08: the scaling factor itself (Units::scalingFactor is what the analyser and the generator insert)
     import core
     import c08
-    c08.run(F, core.Borrowed(rep, only={'C08.M1', 'C08.M3'}))
+    if not getattr(rep, 'nested', False):
+        c08.run(F, core.Borrowed(rep, only={'C08.M1', 'C08.M3'}))
     # ... and with C09: the units the analyser scales from are those linkUnits() left on the variables; linkUnits() recognises stale units by their owning model,
     # so units removed from a model must lose their parent (every erase/clear of a child container clears the parent of what it removes)
     import c09
-    c09.run(F, core.Borrowed(rep, only={'C09.P3', 'C09.P4'}))
+    if not getattr(rep, 'nested', False):
+        c09.run(F, core.Borrowed(rep, only={'C09.P3', 'C09.P4'}))
